@@ -4,5 +4,6 @@ CONSTANTS
   NReg = 2
   Exhaustive = TRUE
   MaxDepth = 1
+  Focus = {}
 INVARIANTS Canonical NativeOK TypeOK EmitTransitions
 CHECK_DEADLOCK FALSE
